@@ -78,9 +78,11 @@ TESTED_NOT_PROVED = [
     "get_rc / the RadiusExpand helpers do not mutate their input; context_extraction copies the dict (oracle on every option / helper / list case)",
     "isinstance(order, tuple) in find_unequal_order_edges: ITS graphs whose order is a list are outside the model (the library never builds them)",
 ]
-LEVEL_TEXT = ("Machine-checked proof (Coq, 30 theorems, all closed under the global context) over an executable model of get_rc and RadiusExpand: on every "
+LEVEL_TEXT = ("Machine-checked proof (Coq, 31 theorems, all closed under the global context) over an executable model of get_rc and RadiusExpand: on every "
               "well-formed ITS graph whose standard_order is the order difference the centre contains a bond iff its two orders differ or both atoms "
-              "are hydrogens (for ignore_aromaticity ITS graphs: iff the orders differ by at least 1, with a witness that 'differs' alone fails), "
+              "are hydrogens (for ignore_aromaticity ITS graphs: iff the orders differ by at least 1, with a witness that 'differs' alone fails; "
+              "stated also on the two sides: for the ITS of a reactant graph G and a product graph H two atoms are joined in the centre iff they are "
+              "bonded on some side and the order differs between G and H, or both are hydrogens), "
               "contains exactly the endpoints of these bonds with the ITS labels (element, charge, typesGH, atom_map), get_rc is idempotent and "
               "commutes with every injective renumbering; for every k >= 1 the radius-k context is the induced subgraph on exactly the atoms at "
               "distance <= k from the centre, and centre within context(1) within context(2) ... within ITS.  Options: exact characterisation of the "
@@ -198,7 +200,7 @@ def coq_case(case):
             gh = P1._graphs_nx(case)
             if gh is None:
                 return None
-            return "run_helpers (its_construct_o %s %s %s %s) %s" % (E.cb(case.get("ia", False)), E.cb(case.get("bal", False)),
+            return "run_helpers (its_construct_ab %s %s %s %s) %s" % (E.cb(case.get("ia", False)), E.cb(case.get("bal", False)),
                                                                     E.coq_mgraph(E.from_nx(gh[0])), E.coq_mgraph(E.from_nx(gh[1])), ks)
         if "I" in case:
             return "run %s" % E.coq_its(case["I"])
